@@ -213,6 +213,8 @@ spif_objpair_init(spif_objpair_t self)
 {
     ASSERT_RVAL(!SPIF_OBJPAIR_ISNULL(self), FALSE);
     spif_obj_set_class(SPIF_OBJ(self), SPIF_CLASS_VAR(objpair));
+    self->key = (spif_obj_t) NULL;
+    self->value = (spif_obj_t) NULL;
     return TRUE;
 }
 
